@@ -15,6 +15,7 @@ static const Reg regs[] = {
 	C01_SET("S.L4.h.f", L4, 2, 2, 0, true, false),
 	C01_MAP("M.L4.m.q", L4, 24, 8, 1, false, false),
 	C01_SET("S.L4.x.q", L4, 8, 4, 2, false, false),
+	C01_SETU("S.O8.u.n", O8),
 	C01_MAPV("T.O8.b.q", O8, 8, 4, 0, false, false, StrVal),
 	C01_MAPV("B.O8.c.p", O8, 8, 8, 0, false, true, BigVal),
 };
